@@ -796,6 +796,17 @@ def m_str_split_char(e,run,a,f):
         else: cur.append(bl[i]); i+=1
     parts.append(cur)
     return Iter([Ref(Cell(Str(p))) for p in parts])
+def m_str_rsplit(e,run,a,f):
+    it=m_str_split_char(e,run,a,f); it.items.reverse(); return it
+def m_str_split_terminator(e,run,a,f):
+    it=m_str_split_char(e,run,a,f)
+    if it.items and not deref(it.items[-1]).b: it.items.pop(); it.back=len(it.items)
+    return it
+def m_str_rsplit_once(e,run,a,f):
+    bl=byte_list(a[0]); pb=pat_bytes(a[1])
+    for i in range(len(bl)-len(pb),-1,-1):
+        if run.branch_bool(bytes_eq(bl[i:i+len(pb)],pb),'rsplit_once'): return some(tuple2(Ref(Cell(Str(bl[:i]))),Ref(Cell(Str(bl[i+len(pb):])))))
+    return none()
 def m_from_str_into_string(e,run,a,f):
     d=deref(a[0]); return StringO(d.b,getattr(d,'taint',False),getattr(d,'ghost',None))
 def m_string_from_string_ref(e,run,a,f): return StringO(deref(a[0]).b)
@@ -1176,7 +1187,7 @@ def register_all(E):
     M(r'<impl str>::trim_start_matches$',m_trim_start_matches)
     M(r'<impl str>::parse$',m_str_parse)
     M(r'<impl str>::split_whitespace$',m_split_whitespace)
-    M(r'<impl str>::split$',m_str_split_char)
+    M(r'<impl str>::split$',m_str_split_char); M(r'<impl str>::rsplit$',m_str_rsplit); M(r'<impl str>::split_terminator$',m_str_split_terminator); M(r'<impl str>::rsplit_once$',m_str_rsplit_once)
     M(r'<impl str>::to_string$',m_to_string)
     M(r'<impl str>::to_owned$',m_str_to_owned)
     M(r'<impl \[.*\]>::to_vec$',m_to_vec)
@@ -1697,7 +1708,7 @@ def m_saturating(op):
         if ov.conc():
             if not ov.v: return val
             if op=='Sub' and not x.s: return Int(x.w,x.s,0)
-            if op=='Add' and not x.s: return Int(x.w,x.s,(1<<x.w)-1)
+            if op in ('Add','Mul') and not x.s: return Int(x.w,x.s,(1<<x.w)-1)
             raise Unsupported('saturating signed')
         if x.s: raise Unsupported('saturating signed symbolic')
         sat=z3.BitVecVal(0 if op=='Sub' else (1<<x.w)-1,x.w)
@@ -1758,6 +1769,7 @@ def register_more(E):
         M(r'<impl %s>::saturating_sub$'%w,m_saturating('Sub')); M(r'<impl %s>::saturating_add$'%w,m_saturating('Add'))
         M(r'<impl %s>::checked_sub$'%w,m_checked('Sub')); M(r'<impl %s>::checked_add$'%w,m_checked('Add')); M(r'<impl %s>::checked_mul$'%w,m_checked('Mul'))
         M(r'<impl %s>::wrapping_sub$'%w,m_wrapping('Sub')); M(r'<impl %s>::wrapping_add$'%w,m_wrapping('Add'))
+        M(r'<impl %s>::saturating_mul$'%w,m_saturating('Mul')); M(r'<impl %s>::wrapping_mul$'%w,m_wrapping('Mul'))
 def _zi(x): return z3.BitVecVal(x.v,x.w) if x.conc() else x.v
 def _mki(w,s,t):
     t=z3.simplify(t)
@@ -1958,7 +1970,30 @@ def m_path_with_file_name(e,run,a,f):
     return Agg('PathBuf',[mk_string(d+n)])
 def m_path_to_path_buf(e,run,a,f): return Agg('PathBuf',[mk_string(_pstr(a[0]))])
 def m_path_is_absolute(e,run,a,f): return Bool(_pstr(a[0]).startswith('/'))
+def _sym_components(run,bl):
+    """(has_root, components as byte lists) of a path whose bytes may be symbolic: forks on `byte == '/'`; empty components and
+    `.` components (other than a leading one) are dropped, as std::path::Components does"""
+    comps=[]; cur=[]; root=False
+    for i,x in enumerate(bl):
+        sep=(x==0x2f) if isinstance(x,int) else run.branch_bool(Bool(x==0x2f),'path.sep')
+        if sep:
+            if i==0: root=True
+            if cur: comps.append(cur); cur=[]
+        else: cur.append(x)
+    if cur: comps.append(cur)
+    out=[]
+    for k,c in enumerate(comps):
+        if len(c)==1:
+            dot=(c[0]==0x2e) if isinstance(c[0],int) else run.branch_bool(Bool(c[0]==0x2e),'path.dot')
+            if dot and (k>0 or root): continue
+        out.append(c)
+    return root,out
 def m_path_starts_with(e,run,a,f):
+    b0,b1=pb_bytes(a[0]),pb_bytes(a[1])
+    if conc_bytes(b0) is None or conc_bytes(b1) is None:
+        r0,c0=_sym_components(run,b0); r1,c1=_sym_components(run,b1)
+        if r0!=r1 or len(c1)>len(c0): return Bool(False)
+        return b_and(*[bytes_eq(x,y) if len(x)==len(y) else Bool(False) for x,y in zip(c0,c1)]) if c1 else Bool(True)
     p=[c for c in _pstr(a[0]).split('/') if c not in('','.')]; q=[c for c in _pstr(a[1]).split('/') if c not in('','.')]
     return Bool(p[:len(q)]==q and _pstr(a[0]).startswith('/')==_pstr(a[1]).startswith('/'))
 def m_path_display(e,run,a,f): return mk_string(_pstr(a[0]))
